@@ -573,6 +573,80 @@ void c18_case(Tape& t, Ctx& ctx) {
   }
 }
 
+
+// ---- C18g: guided search (hill climbing over the duration genome, neighbours generated from the tape, no gradient) for the worst residual
+// under a cap on the duration ratio; the final configuration is judged exactly like a C18 case.  Its per-cap maxima locate where residuals cross the limit.
+template <int S>
+void c18g_case(Tape& t, Ctx& ctx) {
+  using Spline = typename SplineOf<D, S>::type;
+  SplineCase<D> c;
+  c.s = S;
+  c.N = t.range(2, 12);
+  const int N = c.N;
+  static const double caps[] = {100, 64, 50, 40, 36, 32, 28, 24, 20, 16};
+  double cap = caps[t.range(0, 9)];
+  double tmin = std::exp2(-t.range(0, 40) / 8.0);
+  if (tmin < 0.03125) tmin = 0.03125;
+  std::vector<double> u(N, 1.0);
+  int shape = t.range(0, 3);
+  if (shape == 0) u[t.range(0, N - 1)] = 0.0;                       // one short among long
+  else if (shape == 1) { std::fill(u.begin(), u.end(), 0.0); u[t.range(0, N - 1)] = 1.0; }
+  else if (shape == 2) for (int i = 0; i < N; ++i) u[i] = (i & 1) ? 1.0 : 0.0;
+  else for (int i = 0; i < N; ++i) u[i] = t.range(0, 16) / 16.0;
+  c.t0 = 0; c.sigma = tmin * std::sqrt(cap);
+  c.T.assign(N, tmin);
+  auto setT = [&](const std::vector<double>& uu) { for (int i = 0; i < N; ++i) c.T[i] = tmin * std::pow(cap, uu[i]); };
+  setT(u);
+  gen_data(t, c, false);
+  auto objective = [&](Residuals* out) {
+    Spline sp(c.T, c.P, c.t0, c.bc);
+    Residuals R = spline_residuals<D>(sp.getTrajectory().getCoefficients(), c);
+    if (out) *out = R;
+    ld worst = std::max(R.interp, R.boundary);
+    for (int m = 1; m <= 2 * S - 2; ++m) worst = std::max(worst, R.cont[m]);
+    return worst;
+  };
+  ld best = objective(nullptr);
+  int steps = 120, accepted = 0;
+  for (int k = 0; k < steps; ++k) {
+    std::vector<double> v = u;
+    int i = t.range(0, N - 1);
+    int mv = t.range(0, 5);
+    double st = (1 + t.range(0, 7)) / 32.0;
+    if (mv == 0) v[i] = 0; else if (mv == 1) v[i] = 1; else if (mv == 2 || mv == 3) v[i] = std::min(1.0, v[i] + st); else v[i] = std::max(0.0, v[i] - st);
+    setT(v);
+    ld val = objective(nullptr);
+    if (val > best) { best = val; u = v; ++accepted; } else setT(u);
+  }
+  setT(u);
+  { double mn = c.T[0], mx = c.T[0]; for (double x : c.T) { mn = std::min(mn, x); mx = std::max(mx, x); } c.ratio = mx / mn; }
+  c.dur_shape = "guided-search"; c.shape = 9;
+  Residuals R; objective(&R);
+  std::string capn = std::to_string((int)cap);
+  ctx.label(std::string("order:") + SplineOf<D, S>::name());
+  ctx.label("cap:" + capn);
+  if (ctx.want_desc) ctx.desc << c.describe() << ", \"cap\": " << cap << ", \"accepted_moves\": " << accepted << ", \"residuals\": \"" << R.worst() << "\"";
+  ctx.nontrivial = c.ratio >= 10 && N >= 3;
+  std::string who = std::string(SplineOf<D, S>::name()) + " dim=" + std::to_string(D) + " N=" + std::to_string(N) + " guided search (cap " + capn + ") ratio " + g6(c.ratio) + " minT " + g6(tmin);
+  ld hi = 0; for (int m = 4; m <= 2 * S - 2; ++m) hi = std::max(hi, R.cont[m]);
+  ld lo = std::max(R.interp, R.boundary); for (int m = 1; m <= std::min(3, 2 * S - 2); ++m) lo = std::max(lo, R.cont[m]);
+  ctx.maxi(std::string("search_") + SplineOf<D, S>::name() + "_orders<=3_cap" + capn, (double)lo);
+  if (S >= 3) ctx.maxi(std::string("search_") + SplineOf<D, S>::name() + "_orders4..6_cap" + capn, (double)hi);
+  const ld LIMIT = 1e-3L;
+  VCHECK(ctx, R.interp <= LIMIT && R.boundary <= LIMIT, "interpolation", who << ": interpolation/boundary residual " << lg(R.interp) << " / " << lg(R.boundary) << " exceeds 1e-3");
+  double f1_ratio = ctx.kf("F1", "ratio_gt");
+  for (int m = 1; m <= 2 * S - 2; ++m) {
+    if (R.cont[m] <= LIMIT) continue;
+    bool in_f1 = (S == 4 && m >= 4 && m <= 6 && !std::isnan(f1_ratio) && c.ratio > f1_ratio);
+    if (in_f1) { ctx.known_hit("F1", who + ": derivative " + std::to_string(m) + " jumps by " + lg(R.cont[m]) + " (scaled)"); continue; }
+    VFAIL(ctx, "continuity-d" + std::to_string(m), who << ": derivative " << m << " jumps at interior knot " << R.cont_knot[m] << " by " << lg(R.cont[m]) << " (scaled), limit 1e-3; durations " << [&]() { std::string s; for (double x : c.T) s += g6(x) + " "; return s; }());
+  }
+}
+void c18g(Tape& t, Ctx& ctx) {
+  int o = t.pickw({6, 3, 1});
+  with_order(o == 0 ? 4 : (o == 1 ? 3 : 2), [&](auto tag) { c18g_case<decltype(tag)::s>(t, ctx); });
+}
+
 // ===================================================================================== dispatch
 void c01(Tape& t, Ctx& ctx) { with_order(2 + t.range(0, 2), [&](auto tag) { c01_case<decltype(tag)::s>(t, ctx); }); }
 void c02(Tape& t, Ctx& ctx) { with_order(2 + t.range(0, 2), [&](auto tag) { c02_case<decltype(tag)::s>(t, ctx); }); }
@@ -625,6 +699,7 @@ Registrar r01({"C01", "splines dim=" + std::to_string(VDIM), 700, 0, c01, nullpt
 Registrar r02({"C02", "splines dim=" + std::to_string(VDIM), 700, 0, c02, selftest});
 Registrar r02e({"C02e", "enumerated duration structures, dim=" + std::to_string(VDIM), 400, c02e_total(), c02e_check, nullptr});
 Registrar r04({"C04", "splines dim=" + std::to_string(VDIM), 700, 0, c04, nullptr});
+Registrar r18g({"C18g", "guided search, splines dim=" + std::to_string(VDIM), 900, 0, c18g, nullptr});
 Registrar r18({"C18", "splines dim=" + std::to_string(VDIM), 700, 0, c18, nullptr});
 
 }  // namespace fwd
